@@ -23,7 +23,8 @@ def main():
     checks, na = [], []
     for pr in props:
         pid = pr['id']
-        have = all(os.path.exists(os.path.join(V, p)) for p in (
+        ready = set(open(os.path.join(V, 'tools', 'ready.txt')).read().split())
+        have = pid in ready and all(os.path.exists(os.path.join(V, p)) for p in (
             f'coq/Props/{pid}.v', f'harness/props/{pid.lower()}.py'))
         m = meta(pid)
         if have and not m.get('disabled'):
